@@ -27,9 +27,10 @@ RULE = ("documents: every forest with <=3 (quick) / <=4 (thorough) nodes over ta
         "difference is recorded in the notes, not a verdict.  Non-trivial: the filter keeps something and drops "
         "something.  Distinct by (document, filter, configuration).")
 ASSUMPTIONS = ["regular expressions / functions in filters are parameters of the model, instantiated per case by truth tables",
-               "the frame machine (zfeed) reads open_tag_counter[name] as the number of open elements called name and keeps "
-               "stack depths instead of objects in the two auxiliary stacks; it is compared with the heap machine (which keeps "
-               "the counter and the objects as the code does) on every case",
+               "the theorems are stated about the frame machine (zfeed); C16_frame_machine_is_heap_machine proves, for every "
+               "configuration, filter and event sequence, that the heap machine (Model/Build.v + the two checks, compared link by "
+               "link with the implementation here) builds exactly the encoding of the frame machine's tree; the two are still "
+               "compared by evaluation on every case as a sanity check",
                "html.parser's tokenisation of the rendered markup is trusted (C04's subject); those runs are judged by the oracle only",
                "a filter is an object built by SoupStrainer(name, attrs, string, **kwargs); ElementFilter subclasses are not covered"]
 
@@ -96,6 +97,8 @@ def doc_tags(ds):
 
 def random_doc(rng, maxn, prefixes=True):
     names = ["a", "b", "p", "div", "a", "b", "pre", "textarea", "script", "template", "rt", "br", "x:y", "style"]
+    if rng.random() < 0.15:
+        names = names + ["[document]"]          # an element called like the document object is an ordinary element
     n = [0]
 
     def node(depth):
@@ -105,7 +108,7 @@ def random_doc(rng, maxn, prefixes=True):
             k = rng.choice([1, 1, 1, 2, 3])
             return ("x", [rng.choice(["t1", "t2", " ", "\n  ", " \n ", "t1 \n", "", "\t"]) for _ in range(k)])
         if r < 0.36:
-            return ("s", rng.choice([4, 4, 4, 1, 6]), "c%d" % rng.randint(1, 2))
+            return ("s", rng.choice([4, 4, 4, 1, 6]), rng.choice(["c1", "c2", "c1", " \n ", "", " "]))
         nm = rng.choice(names)
         pf = rng.choice(["p", "q"]) if (prefixes and rng.random() < 0.12) else None
         at = []
@@ -416,7 +419,7 @@ def run_batch(ctx, items):
         in_dom = False
         if flags and verdict != "outside":
             tagf, strf, mixf, names_ok, single, ctx_ok, ctx_free = flags
-            in_dom = bool(names_ok and ((tagf and single and ctx_ok and not has_function(q)) or (strf and ctx_free) or mixf))
+            in_dom = bool((tagf and single and ctx_ok and not has_function(q)) or (strf and ctx_free) or mixf)
         impl_sh = [impl_shape_raw(c, multi) for c in sel.contents]
         hsh = [model_pshape(p, None) for p in heap_nodes]
         problem = None
@@ -455,6 +458,9 @@ def markup_runs(ctx, docs, filters):
     for doc in docs:
         if any(t[2] is not None for t in doc_tags(doc)) or any(d[0] == "s" and d[1] != 4 for d in walk(doc)):
             continue
+        if any(t[1] in ("script", "style") and any(k[0] != "x" for k in t[4]) for t in doc_tags(doc)):
+            continue                  # html.parser reads the content of script / style as character data: the markup
+                                      # written for such a document is not the well-formed document it was written from
         mk = "".join(render(d, void) for d in doc)
         if "<" in "".join("".join(d[1]) for d in walk(doc) if d[0] == "x"):
             continue
@@ -483,7 +489,11 @@ def corpus():
     return [pre_b,
             [("t", "template", None, [], [("t", "b", None, [], [("x", ["t1"])])])],
             [("t", "div", None, [], [("t", "b", None, [], [("x", [" \n "])]), ("x", ["t1"])]), ("t", "b", None, [("id", "1")], [])],
-            [("t", "b", None, [], [("t", "b", None, [], [])]), ("x", ["t1"]), ("t", "a", None, [], [("t", "b", None, [], [("s", 4, "c1")])])]]
+            [("t", "b", None, [], [("t", "b", None, [], [])]), ("x", ["t1"]), ("t", "a", None, [], [("t", "b", None, [], [("s", 4, "c1")])])],
+            # whitespace-only comments are kept as sent (endData collapses only text), also under a filter
+            [("x", [" \n "]), ("t", "b", None, [("id", "1")], [("s", 4, " \n "), ("x", [" \n "]), ("s", 1, "")])],
+            # an element named like the document object
+            [("t", "[document]", None, [], [("t", "b", None, [], [("x", ["t1"])])]), ("t", "b", None, [], [])]]
 
 
 def run(ctx):
